@@ -235,6 +235,23 @@ def asgRecv (a b : Ty) : Bool :=
   | .typ x => (match b with | .typ y => asg x y | _ => false)
   | .sensitive x => (match b with | .sensitive y => asg x y | _ => false)
   | .iterator x => (match b with | .iterator y => asg x y | _ => false)
+  | .callable ps rt bl =>
+      -- CallableType.IsAssignable (the rule as repaired in /repo ccb4ec0): all three parts absent → every Callable; the return type accepts
+      -- the other's (absent = Any); the parameters IN REVERSE (the other's accept this one's; the other's absent ⇒ this one's absent);
+      -- the block: absent ⇒ the other's absent, else the other's block type accepts this one's
+      (match b with
+       | .callable ps' rt' bl' =>
+           if ps.isNone && rt.isNone && bl.isNone then true else
+           (match rt with
+            | none => true
+            | some r => (match rt' with | none => asg r .any | some r' => asg r r')) &&
+           (match ps' with
+            | some p' => (match ps with | none => false | some p => asg p' p)
+            | none => ps.isNone) &&
+           (match bl with
+            | none => bl'.isNone
+            | some bk => (match bl' with | none => false | some bk' => asg bk' bk))
+       | _ => false)
   | .iterable x =>
       (match b with
        | .array e' r' => decide (r'.hi ≤ 0) || asg x e'
@@ -257,7 +274,7 @@ def asgRecv (a b : Ty) : Bool :=
 termination_by (a.w + b.w, 1)
 decreasing_by
   all_goals simp_wf
-  all_goals (try simp only [Ty.w, Ty.wl, Ty.wm, floatAll] at *)
+  all_goals (try simp only [Ty.w, Ty.wl, Ty.wm, Ty.wo, floatAll] at *)
   all_goals first | (apply Prod.Lex.left; omega) | (apply Prod.Lex.right; omega) | (rw [Prod.lex_def]; simp only []; omega)
 
 /-- `allAssignableTo(bs, a)`: `a` accepts every member -/
